@@ -5,12 +5,13 @@ C17 — the invariant of `typed_interleavings_owned` (Lemmas/C17Typed.lean), cor
 after the prefix `pre` of the trace whose blocking state is `f`:
 * at thread `t` iff the local typing of `proj pre t` (started from `H0 t`) holds `k`;
 * in message `j` of channel `c` iff the message is sent and not yet received and `k ∈ chanPay c`;
-* never at a close;
+* at the close of `c` iff `c` is closed, the one receiver `waiter c` has not yet received the close, and
+  `k ∈ closePay c`;
 * in mutex `m` iff it is free and `k ∈ mtxPay m`;
 * in wait group `w` iff the adder has not waited yet and a kid that is done gave it back;
 * at the spawn of `u` iff `u` is spawned and not started and `k ∈ spawnPay u`.
 `GoodT S pre o f` says that the ownership machine's state `o` is exactly that (`o.loc k = l ↔ Exp … l k`),
-plus the bookkeeping (message counters, wait-group counters) that keeps it true.
+plus the bookkeeping (message counters, wait-group counters, a `recvC c` only after `close c`) that keeps it true.
 -/
 import DastardV.Lemmas.C17TypedA
 
@@ -29,7 +30,7 @@ def doneCount (S : System) (pre : Trace) (w : Obj) : Nat :=
 def Exp (S : System) (pre : Trace) (f : FSt) : Loc → Tok → Prop
   | .thr t, k => heldBy S pre t k
   | .msg c j, k => (f.nrecv c ≤ j ∧ j < f.nsend c) ∧ k ∈ S.sp.chanPay c
-  | .clo _, _ => False
+  | .clo c, k => (f.closed c = true ∧ Ev.recvC c ∉ proj pre (S.waiter c)) ∧ k ∈ S.sp.closePay c
   | .mtx m, k => f.held m = false ∧ k ∈ S.sp.mtxPay m
   | .wgb w, k => ¬ waited S pre w ∧ ∃ u, u ∈ S.kids w ∧ Ev.wgDone w ∈ proj pre u ∧ k ∈ S.sp.donePay w u
   | .spw u, k => (f.spawned u = true ∧ f.started u = false) ∧ k ∈ S.sp.spawnPay u
@@ -42,6 +43,7 @@ structure GoodT (S : System) (pre : Trace) (o : OSt) (f : FSt) : Prop where
   ss : ∀ u, f.started u = true → f.spawned u = true
   wg : ∀ w, ¬ waited S pre w → f.cnt w + doneCount S pre w = cnt (.wgAdd w) (proj pre (S.adder w))
   wd : ∀ w, waited S pre w → ∀ u, u ∈ S.kids w → Ev.wgDone w ∈ proj pre u
+  rc : ∀ c u, Ev.recvC c ∈ proj pre u → f.closed c = true
 
 /-! ### the initial state -/
 
@@ -73,9 +75,11 @@ theorem GoodT.init (S : System) (ok : S.OK) : GoodT S [] (OSt.init S.sp) FSt.ini
         rcases ok.init_kind k with ⟨t, h'⟩ | ⟨m, h'⟩ <;> rw [h'] at h <;> cases h
       · rintro ⟨⟨_, h⟩, _⟩; exact absurd h (Nat.not_lt_zero _)
     | clo c =>
-      simp only [Exp, iff_false]
-      intro h
-      rcases ok.init_kind k with ⟨t, h'⟩ | ⟨m, h'⟩ <;> rw [h'] at h <;> cases h
+      simp only [Exp, FSt.init]
+      constructor
+      · intro h
+        rcases ok.init_kind k with ⟨t, h'⟩ | ⟨m, h'⟩ <;> rw [h'] at h <;> cases h
+      · rintro ⟨⟨h, _⟩, _⟩; cases h
     | mtx m =>
       simp only [Exp, FSt.init, true_and]
       exact ok.init_mtx k m
@@ -99,6 +103,9 @@ theorem GoodT.init (S : System) (ok : S.OK) : GoodT S [] (OSt.init S.sp) FSt.ini
   wd := by
     intro w h
     simp [waited, proj_nil] at h
+  rc := by
+    intro c u h
+    simp [proj_nil] at h
 
 /-! ### what one more event of thread `t` means for its typing and its program -/
 
@@ -203,6 +210,22 @@ theorem Ctx.done_fresh {S : System} (ok : S.OK) {pre : Trace} {t : Tid} {w : Obj
   rw [ok.done_kid w t]
   split <;> omega
 
+/-! ### the facts about the one receiver of a close that hands tokens over -/
+
+theorem Ctx.recvc_waiter {S : System} (ok : S.OK) {pre : Trace} {t : Tid} {c : Obj} {H H' : List Tok}
+    (cx : Ctx S pre t (.recvC c) H H') (hne : S.sp.closePay c ≠ []) : t = S.waiter c := by
+  refine Classical.byContradiction fun h => ?_
+  exact (ok.recvc_one c hne).1 t h cx.mem_prog
+
+theorem Ctx.recvc_fresh {S : System} (ok : S.OK) {pre : Trace} {t : Tid} {c : Obj} {H H' : List Tok}
+    (cx : Ctx S pre t (.recvC c) H H') (hne : S.sp.closePay c ≠ []) :
+    Ev.recvC c ∉ proj pre (S.waiter c) := by
+  have ht := cx.recvc_waiter ok hne
+  rw [← ht]
+  apply cx.fresh
+  rw [ht]
+  exact (ok.recvc_one c hne).2
+
 /-! ### frames: what an event leaves alone -/
 
 theorem waited_snoc_of_ne (S : System) (pre : Trace) (t : Tid) (e : Ev) (w : Obj) (h : e ≠ .wgWait w) :
@@ -249,18 +272,31 @@ theorem wg_frame {S : System} {pre : Trace} {o : OSt} {f f' : FSt} (g : GoodT S 
     rw [waited_snoc_of_ne S pre t e w (hW w)] at hw
     exact mem_proj_snoc_mono pre t u e _ (g.wd w hw u hu)
 
+/-- a `recvC c` happens only on a closed channel, and channels stay closed -/
+theorem rc_frame {S : System} {pre : Trace} {o : OSt} {f : FSt} (g : GoodT S pre o f) (t : Tid) (e : Ev)
+    (cl' : Obj → Bool)
+    (hc : ∀ c, f.closed c = true → cl' c = true) (he : ∀ c, e = .recvC c → cl' c = true) :
+    ∀ c u, Ev.recvC c ∈ proj (pre ++ [(t, e)]) u → cl' c = true := by
+  intro c u h
+  rcases (mem_proj_snoc pre t u e _).1 h with h | ⟨_, h⟩
+  · exact hc c (g.rc c u h)
+  · exact he c h.symm
+
 /-- `Exp` at a location the event has nothing to do with -/
 theorem Exp_frame (S : System) (pre : Trace) (t : Tid) (e : Ev) (f f' : FSt) (l : Loc) (k : Tok)
     (hthr : ∀ u, l = .thr u → u ≠ t)
     (hmsg : ∀ c j, l = .msg c j → (f'.nrecv c ≤ j ∧ j < f'.nsend c ↔ f.nrecv c ≤ j ∧ j < f.nsend c))
     (hmtx : ∀ m, l = .mtx m → f'.held m = f.held m)
     (hspw : ∀ u, l = .spw u → f'.spawned u = f.spawned u ∧ f'.started u = f.started u)
-    (hwgb : ∀ w, l = .wgb w → e ≠ .wgWait w ∧ e ≠ .wgDone w) :
+    (hwgb : ∀ w, l = .wgb w → e ≠ .wgWait w ∧ e ≠ .wgDone w)
+    (hclo : ∀ c, l = .clo c → f'.closed c = f.closed c ∧ e ≠ .recvC c) :
     Exp S (pre ++ [(t, e)]) f' l k ↔ Exp S pre f l k := by
   cases l with
   | thr u => simp only [Exp]; exact heldBy_snoc_ne S pre t u e k (hthr u rfl)
   | msg c j => simp only [Exp]; rw [hmsg c j rfl]
-  | clo c => simp only [Exp]
+  | clo c =>
+    simp only [Exp]
+    rw [(hclo c rfl).1, mem_proj_snoc_of_ne pre t _ e _ (fun x => (hclo c rfl).2 x.symm)]
   | mtx m => simp only [Exp]; rw [hmtx m rfl]
   | wgb w =>
     simp only [Exp]
